@@ -60,6 +60,9 @@ def setup(J):
             for fa in (-1, 1):
                 jobs.append({"id": f"C17-n1-s1-m2-consumer-second-in-port-mo{fa}", "prop": "C17", "kind": "stream", "mode": "delay", "delay": 1, "budget": J.budget(tier, 30, 200), "oracles": [], "events_dep": False, "force_all": fa,
                              "args": {"n": "1", "size": "1", "max": "2", "hdr": "1"}})
+            # the consumer names the pipe through a modifier that looks at the end of the path ({i:in|%.fifo}.fifo)
+            jobs.append({"id": "C17-n1-s1-m2-consumer-input-through-suffix-modifier", "prop": "C17", "kind": "stream", "mode": "delay", "delay": 1, "budget": J.budget(tier, 30, 200), "oracles": [], "events_dep": False, "force_all": -1,
+                         "args": {"n": "1", "size": "1", "max": "2", "modcons": "1"}})
             # two streamed items in flight: a pass-through process notes the order in which they leave the producer
             for size, mx in ((1, 4),) if q else ((1, 4), (65537, 4), (1, 5)):
                 jobs.append({"id": f"C17-n2-s{size}-m{mx}-order", "prop": "C17", "kind": "stream", "mode": "delay", "delay": 1, "budget": J.budget(tier, 40, 300), "oracles": [], "events_dep": False, "force_all": -1,
